@@ -136,6 +136,11 @@ pub struct Bench {
     pub labels: HashMap<String, u16>,
     /// how often the REP driver re-issued the last line
     pub last_issues: u32,
+    /// history mode: a matched outcome's memory writes become part of the state
+    pub keep: bool,
+    pub dirty: Vec<u32>,
+    /// index of the outcome matched by the last successful judge
+    pub matched: usize,
 }
 
 #[derive(Debug)]
@@ -162,6 +167,9 @@ impl Bench {
             ictx: InterpreterContext::default(),
             labels: HashMap::new(),
             last_issues: 0,
+            keep: false,
+            dirty: Vec::new(),
+            matched: 0,
         }
     }
     /// all-zero memory variant (cheaper to reason about in some workloads)
@@ -238,8 +246,8 @@ impl Bench {
         outs: &[Outcome],
         flow_ok: &dyn Fn(&Flow, &ObsFlow) -> bool,
     ) -> Result<&'static str, Mismatch> {
-        let mut verdict: Option<&'static str> = None;
-        for o in outs {
+        let mut verdict: Option<usize> = None;
+        for (oi, o) in outs.iter().enumerate() {
             // registers
             let mut ok = true;
             for i in 1..14 {
@@ -262,26 +270,31 @@ impl Bench {
                     self.shadow[*a as usize] = *v;
                 }
                 let same = self.vm.mem[..] == self.shadow[..];
+                if same && self.keep {
+                    for (a, _) in &o.memw {
+                        self.dirty.push(*a);
+                    }
+                    verdict = Some(oi);
+                    break;
+                }
                 for (a, v) in saved.iter().rev() {
                     self.shadow[*a as usize] = *v;
                 }
                 if same {
-                    verdict = Some(o.alt);
+                    verdict = Some(oi);
                     break;
                 }
             }
         }
-        if let Some(tag) = verdict {
-            // restore vm.mem: only the cells of the matched outcome can differ from the shadow
-            for o in outs {
-                if o.alt == tag {
-                    for (a, _) in &o.memw {
-                        self.vm.mem[*a as usize] = self.shadow[*a as usize];
-                    }
+        if let Some(oi) = verdict {
+            self.matched = oi;
+            if !self.keep {
+                // restore vm.mem: only the cells of the matched outcome can differ from the shadow
+                for (a, _) in &outs[oi].memw {
+                    self.vm.mem[*a as usize] = self.shadow[*a as usize];
                 }
             }
-            // (several outcomes can share a tag; restoring a superset of cells is harmless)
-            return Ok(tag);
+            return Ok(outs[oi].alt);
         }
         // describe the mismatch against the primary outcome
         let o = &outs[0];
@@ -356,6 +369,17 @@ impl Bench {
             detail.push_str("no single acceptable outcome matches all components; ");
         }
         Err(Mismatch { components: comps, detail })
+    }
+
+    /// leave history mode: put every cell written during the history back to the pattern
+    pub fn end_history(&mut self) {
+        let d = std::mem::take(&mut self.dirty);
+        for a in d {
+            let p = pattern(a, self.salt);
+            self.shadow[a as usize] = p;
+            self.vm.mem[a as usize] = p;
+        }
+        self.keep = false;
     }
 
     pub fn restore_mem(&mut self) {
